@@ -18,9 +18,10 @@ CHECKS = {
             "every run (meta-induction), DFS completeness of search_paths: decided on bounded inputs by the run-time engine contracts (fixpoint at every block) and BS-PROG "
             "(real pipeline vs the independent interpreter spec/avm.py).",
             "contract-based deductive verification (pyvc) + bounded run-time engine contracts + BS-PROG for the end-to-end clause"),
- "C02": (O, "No function-level proof yet (search_paths is a recursive closure over lists: DESIGN §6.7). Decided by the bounded stand-in only: every reported path of every detector "
+ "C02": (O, "search_paths (a recursive closure over lists of lists) is not under contract; of the exclusion clause the boolean structure is proved (and_exact / or_exact of _get_asserted: "
+            "a guard under && / || constrains the field exactly as its operands do), as is validated_in_block. Otherwise decided by the bounded stand-in: every reported path of every detector "
             "on the generated programs is re-validated against the AVM control rules computed from the independent parser (entry start, legal transfers, matched call/return, "
-            "terminating last block, no revisit inside an activation, no duplicates).", "bounded native contract check (BS-PROG); no obligations discharged"),
+            "terminating last block, no revisit inside an activation, no duplicates).", "bounded native contract check (BS-PROG) + two deductive clauses of the exclusion part"),
  "C03": (P, "Proved on the real code: exactness clauses of the comparison kernels (fee: exact implied bound for six operators in both operand orders; group size/index: exact true/false sets; "
             "transaction kinds: a direct check by name or number in either order removes the kind it excludes; addresses: compared branch is never 'any address'); exact lattice operations; "
             "the engine equations are exact in gamma (reach-in, live-in, merge, gtxn update), a block with err / return 0 keeps only the null set, an exit other than bz/bnz leaves "
@@ -37,12 +38,14 @@ CHECKS = {
             "(finding D1 carved out), _get_asserted generic, the engine equations (see C01) incl. checks_group_size. Per-block statement over whole runs: run-time engine contracts "
             "(fixpoint) and BS-PROG (bounded).", "contract-based deductive verification (pyvc) + run-time engine contracts + BS-PROG"),
  "C07": (P, "Proved: _get_asserted_transaction_types admits every approvable pay/axfer/update/delete kind outside finding D5, precision on direct checks, the two enum maps total and exact. "
-            "The engine equations are pinned in gamma (see C01). Per-block statement over whole runs: run-time engine contracts and BS-PROG (bounded).", "contract-based deductive verification (pyvc) + run-time engine contracts + BS-PROG"),
+            "The engine equations are pinned in gamma (see C01); TxnType._store_results: every context's transaction_types lists exactly the computed kinds. Per-block statement over whole runs: "
+            "run-time engine contracts and BS-PROG (bounded).", "contract-based deductive verification (pyvc) + run-time engine contracts + BS-PROG"),
  "C08": (P, "Proved: AddrFields._union/_intersection exact in gamma and marker-invariant preserving (and not mutating their arguments), _get_asserted_address, _get_asserted_txn_gtxn sound for "
             "constant comparands in both orders (finding D19 carved out); engine equations (see C01). Per-block statement over whole runs: run-time engine contracts and BS-PROG (bounded).",
             "contract-based deductive verification (pyvc) + run-time engine contracts + BS-PROG"),
  "C09": (P, "Proved: FeeField lattice exact; _get_asserted_max_value sound and tight; _get_asserted_fee sound and exact in both operand orders incl. the mirrored operator (fix 2b2fb7f); "
-            "finding D18 carved out; the fee closure's threshold (272000) and the engine equations (see C01). Per-block statement over whole runs: run-time engine contracts and BS-PROG (bounded).",
+            "finding D18 carved out; the fee closure's threshold (272000), the engine equations (see C01) and FeeField._store_results (what the detectors read is what was computed: owner-view "
+            "separation of the context objects). Per-block statement over whole runs: run-time engine contracts and BS-PROG (bounded).",
             "contract-based deductive verification (pyvc) + run-time engine contracts + BS-PROG"),
  "C10": (P, "Proved: is_value_matches_key with get_index_and_field and _get_index inlined, exact against an independent syntactic definition of 'read of the key's field' and sound against "
             "the AVM axioms; key constructors/recognisers/inverter decided exhaustively over the finite key space (complete); _update_gtxn_constraints (cell of gtxn i k = old cell n cell of k "
